@@ -47,6 +47,33 @@ def wordStr (uv : List String) (i : Nat) : String := uv.getD i "?"
 def countOrder (cs : Comps Nat) (k : Nat) : Nat :=
   ((unionGrams cs).filter (fun g => g.1.length + 1 == k)).length
 
+def evDev (out : List (OutEntry Nat Float)) (ev : Ev Nat Float) : Float :=
+  match ev with
+  | Ev.prob c x v =>
+    match outFind out c x with
+    | some e => Float.abs (Float.log10 v - Float.log10 e.p)
+    | none => 1.0e9
+  | Ev.bo c v =>
+    match out.find? (fun e => decide (e.gram = c)) with
+    | some e => Float.abs (Float.log10 v - Float.log10 e.b)
+    | none => 1.0e9
+
+/-- run the stream model of pass 2 on the `ContextOrder`-sorted streams of the union and compare what
+it writes with the functional model's output table -/
+def streamCheck (cs : Comps Nat) (V : List Nat) (out : List (OutEntry Nat Float)) : String :=
+  let mo := maxOrder cs
+  if mo < 2 then "stream shape=true consumed=true events=0 probs=0 maxdev=0" else
+  let streams := (List.range (mo - 1)).map (fun j => sortedStream cs (j + 2))
+  let X := sortedX cs
+  let Y := sortedY cs
+  let shape := decide (levelsE X Y (mo - 2) (Y []) [] = streams)
+  let fuel := 2 * (unionGrams cs).length + 10
+  let r := extendCtx E10 cs fuel streams [] (Zinc E10 cs V [])
+  let consumed := r.1.all (·.isEmpty)
+  let nprob := (r.2.filter (fun e => match e with | Ev.prob .. => true | _ => false)).length
+  let dev := (r.2.map (evDev out)).foldl (fun a b => if b > a then b else a) 0.0
+  s!"stream shape={shape} consumed={consumed} events={r.2.length} probs={nprob} maxdev={fbits dev}"
+
 def step (s : St) (line : String) : St × String :=
   match words line with
   | ["model", o] =>
@@ -81,6 +108,7 @@ def step (s : St) (line : String) : St × String :=
     ({ s with uv := uv, cs := cs, bos := uv.idxOf "<s>", out := out },
       s!"built vocab={uv.length} maxorder={mo} counts={" ".intercalate counts} stuck={(stuck cs).length}")
   | ["vocab"] => (s, " ".intercalate s.uv)
+  | ["stream"] => (s, streamCheck s.cs (List.range s.uv.length) s.out)
   | ["stuck"] =>
     (s, "\t".intercalate ((stuck s.cs).map (fun g => " ".intercalate (g.map (wordStr s.uv)))))
   | ["entries", k] =>
